@@ -110,14 +110,17 @@ RESERVED = {'at', 'end', 'from', 'if', 'then', 'else', 'match', 'with', 'do', 'l
             'theorem', 'open', 'namespace', 'section', 'variable', 'import', 'where', 'deriving', 'class', 'show', 'by', 'mutual', 'macro',
             'syntax', 'notation', 'local', 'private', 'protected', 'partial', 'unsafe', 'universe', 'example', 'abbrev', 'inductive',
             'extends', 'for', 'unless', 'try', 'catch', 'finally', 'mut', 'break', 'continue', 'return', 'nomatch', 'nofun', 'Type', 'Sort',
-            'Prop', 'db', 'Mo', 'e', 'Self', 'begin', 'using', 'exact', 'calc', 'this', 'suffices', 'obtain', 'true', 'false', 'none', 'some'}
+            'Prop', 'db', 'Mo', 'e', 'Self', 'fileContents', 'Parser', 'begin', 'using', 'exact', 'calc', 'this', 'suffices', 'obtain', 'true', 'false', 'none', 'some'}
+
+_mangled = {}
 
 def lname(name):
     if not all(c.isalnum() or c == '_' for c in name) or not name.isascii():
         raise Untranslatable(f'identifier {name!r}')
-    if name in RESERVED or name.startswith('tmp') or name == '_':
-        return name + '_'
-    return name
+    m = name + '_' if (name in RESERVED or name.startswith('tmp') or name == '_') else name
+    if _mangled.setdefault(m, name) != name:
+        raise Untranslatable(f'identifiers {name!r} and {_mangled[m]!r} would both become `{m}`')
+    return m
 
 def atom(t):
     """parenthesise unless already atomic"""
@@ -890,6 +893,8 @@ class Fn:
             return bind(p, comp, tree)
         if isinstance(target, ast.Name):
             x = target.id
+            if x in self.u.methods or x in self.u.consts or x == 'self':
+                bad(s, f'local variable {x} hides a method / module constant / self')
             if ty in (KWARGS, INSTANCE, SELF) and not isinstance(value, ast.Call):
                 bad(s, f'second name for a mutable object ({ast.unparse(value)}): later mutations through one name would have to show through the other')
             env2 = dict(env); env2[x] = ty
@@ -1209,6 +1214,7 @@ open I18n
 '''
 
 def generate(repo):
+    _mangled.clear()
     src = open(os.path.join(repo, 'lib', 'moparser.py'), encoding='utf-8').read()
     unit = Unit(src)
     if '__init__' not in unit.methods or 'parse' not in unit.methods:
@@ -1280,7 +1286,11 @@ def main():
     repo = sys.argv[1] if len(sys.argv) > 1 else '/repo'
     dest = sys.argv[2] if len(sys.argv) > 2 else os.path.join(os.path.dirname(os.path.abspath(__file__)), '..', '..', 'lean', 'I18n', 'Generated', 'MoParser.lean')
     try:
-        text = generate(repo)
+        try:
+            text = generate(repo)
+        except (SyntaxError, KeyError, AttributeError, TypeError, IndexError, ValueError, AssertionError, RecursionError) as exc:
+            # a source the translator cannot even walk (does not parse, unforeseen AST shape): outside the subset, not an infrastructure failure
+            raise Untranslatable(f'{type(exc).__name__} while translating: {exc}')
     except Untranslatable as exc:
         msg = str(exc).replace('"', "'").replace('\\', '/')
         text = HEADER + (f'-- UNTRANSLATABLE: {msg}\n'
